@@ -3,6 +3,7 @@ mod dd;
 mod driver;
 mod model;
 mod proto;
+mod tdd;
 
 fn main() {
     let args: Vec<String> = std::env::args().collect();
